@@ -164,16 +164,43 @@ def threadlock_shape(res):
                 "the threadlock branch can fall through into the single-threaded allocation path")
     else:
         res.ok("R-THREADLOCK", "stackalloc:threadlock-branch-returns", {"file": file, "line": then.get("line")})
-    # the reservation size covers size + alignment slack: alloc_size mentions size and alignment
-    decl = [x for x in cir.walk(then) if x.get("k") == "VarDecl" and x.get("n") == "alloc_size"]
-    txt = cir.text([c for c in cir.kids(decl[0]) if c][-1]) if decl else ""
-    vs = cir.vars_in(decl[0]) if decl else set()
-    added = cir.text(cir.kids(atomic_calls[0])[2]) if atomic_calls and len(cir.kids(atomic_calls[0])) > 2 else None
-    if decl and {"size", "alignment"} <= vs and added == "alloc_size":
-        res.ok("R-THREADLOCK", "stackalloc:reservation-covers-alignment", {"expr": txt})
+    # the amount reserved atomically, as a linear form, must dominate size + (alignment - 1) (the block is formed at
+    # bottom - old - size and aligned DOWN by up to alignment-1), and the overflow test must test exactly that amount
+    from .. import linform as _lf
+    defs = _lf.single_defs(fn)
+    added_node = cir.kids(atomic_calls[0])[2] if atomic_calls and len(cir.kids(atomic_calls[0])) > 2 else None
+    form = _lf.linform(added_node, defs) if added_node is not None else {}
+    opaque = [t for t in form if t not in ("size", "alignment", "1")]
+    if added_node is not None and form.get("size", 0) >= 1 and form.get("alignment", 0) >= 1 and form.get("1", 0) >= -1 and \
+            all(form[t] >= 0 for t in opaque):
+        res.ok("R-THREADLOCK", "stackalloc:reservation-covers-alignment", {"reserved": _lf.fmt(form)})
     else:
         res.bad("R-THREADLOCK", "stackalloc:reservation-covers-alignment", file, tlif.get("line"),
-                f"atomic reservation does not cover size plus alignment slack (alloc_size = {txt!r})")
+                f"the atomically reserved amount `{_lf.fmt(form)}` is not provably >= size + alignment - 1: the block start is "
+                f"aligned down inside the reservation, so a smaller reservation lets blocks of different threads overlap")
+    # overflow test of the threadlock branch tests old + reserved against the space above the arena
+    gd = None
+    for st in cir.kids(then):
+        if st is not None and st.get("k") == "IfStmt" and any(cir.callee(c) == "mju_error" for c in cir.calls(cir.kids(st)[1])):
+            gd = cir.strip(cir.kids(st)[0])
+            while gd is not None and gd.get("k") == "CallExpr" and cir.callee(gd) == "__builtin_expect":
+                gd = cir.strip(cir.args(gd)[0])
+            while gd is not None and gd.get("k") == "UnaryOperator" and gd.get("op") == "!":
+                gd = cir.strip(cir.kids(gd)[0])
+    okg = False
+    detail = ""
+    if gd is not None and gd.get("k") == "BinaryOperator" and gd.get("op") in (">", ">="):
+        lhs = _lf.linform(cir.kids(gd)[0], defs)
+        rhs = _lf.linform(cir.kids(gd)[1], defs)
+        oldv = [x.get("n") for x in cir.walk(then) if x.get("k") == "VarDecl" and any(y.get("k") == "AtomicExpr" for y in cir.walk(x))]
+        want = _lf._add({oldv[0]: 1} if oldv else {}, form)
+        okg = lhs == want and rhs == {"d->narena": 1, "d->parena": -1}
+        detail = f"tests `{_lf.fmt(lhs)}` > `{_lf.fmt(rhs)}`; reserved `{_lf.fmt(form)}`"
+    if okg:
+        res.ok("R-THREADLOCK", "stackalloc:overflow-test-matches-reservation", {"detail": detail})
+    else:
+        res.bad("R-THREADLOCK", "stackalloc:overflow-test-matches-reservation", file, tlif.get("line"),
+                f"the threadlock overflow test does not compare (old pstack + reserved amount) with (narena - parena): {detail}")
     okk = len(plain_writes_out) == 1 and cir.text(cir.kids(plain_writes_out[0])[1]) == "stack_info.bottom - stack_info.top"
     if okk:
         res.ok("R-THREADLOCK", "stackalloc:pstack-from-local-info", {"line": plain_writes_out[0].get("line")})
@@ -198,23 +225,59 @@ def threadlock_shape(res):
         else:
             res.bad("R-THREADLOCK", f"{fname}:overflow-test-dominates-result", file, where.get("line"),
                     "no overflow test ending in mju_error dominates the returned block pointer")
-    # 4. arena: NULL return dominated by the size comparison, and parena advanced only after it
+    arena_guard(res, "R-THREADLOCK", u)
+
+
+def arena_guard(res, rule, u=None):
+    """mj_arenaAllocByte: tested amount == consumed amount, against narena - pstack, before the advance."""
+    file = "src/engine/engine_memory.c"
+    if u is None:
+        u = engine.unit(file)
+    if "mj_arenaAllocByte" not in u.funcs:
+        raise AnalysisError("mj_arenaAllocByte not found")
+    # 4. arena: the amount tested by the rejecting comparison equals the amount by which parena advances, the test is
+    #    against (narena - pstack), and it precedes the advance
+    from .. import linform as _lf
     fn = u.funcs["mj_arenaAllocByte"]
+    defs = _lf.single_defs(fn)
     stmts = cir.kids(cir.body(fn))
     gi = None
+    tested = avail = None
     for i, st in enumerate(stmts):
         if st is not None and st.get("k") == "IfStmt":
             rets = [x for x in cir.walk(cir.kids(st)[1]) if x.get("k") == "ReturnStmt"]
-            if rets and "bytes" in cir.vars_in(cir.kids(st)[0]) and "d->parena" in cir.text(cir.kids(st)[0]):
+            c = cir.strip(cir.kids(st)[0])
+            while c is not None and c.get("k") == "CallExpr" and cir.callee(c) == "__builtin_expect":
+                c = cir.strip(cir.args(c)[0])
+            while c is not None and c.get("k") == "UnaryOperator" and c.get("op") == "!":
+                c = cir.strip(cir.kids(c)[0])
+            if rets and c is not None and c.get("k") == "BinaryOperator" and c.get("op") in (">", ">=") and gi is None:
                 gi = i
-                gcond = cir.text(cir.kids(st)[0])
-    wi = [i for i, st in enumerate(stmts) if st is not None and st.get("k") in ("CompoundAssignOperator", "BinaryOperator")
-          and cir.text(cir.kids(st)[0]) == "d->parena"]
-    if gi is not None and wi and all(i > gi for i in wi):
-        res.ok("R-THREADLOCK", "mj_arenaAllocByte:size-test-before-advance", {"cond": gcond})
+                tested = _lf.linform(cir.kids(c)[0], defs)
+                avail = _lf.linform(cir.kids(c)[1], defs)
+    adv = None
+    wi = []
+    for i, st in enumerate(stmts):
+        if st is not None and st.get("k") == "CompoundAssignOperator" and st.get("op") == "+=" and cir.text(cir.kids(st)[0]) == "d->parena":
+            adv = _lf.linform(cir.kids(st)[1], defs)
+            wi.append(i)
+        elif st is not None and st.get("k") == "BinaryOperator" and st.get("op") == "=" and cir.text(cir.kids(st)[0]) == "d->parena":
+            adv = _lf._add(_lf.linform(cir.kids(st)[1], defs), {"d->parena": 1}, -1)
+            wi.append(i)
+    problems = []
+    if gi is None or adv is None or len(wi) != 1:
+        problems.append("size test or single advance of d->parena not found")
     else:
-        res.bad("R-THREADLOCK", "mj_arenaAllocByte:size-test-before-advance", file, fn.get("line"),
-                "arena pointer advanced without a dominating size test that returns NULL")
+        if wi[0] < gi:
+            problems.append("d->parena is advanced before the size test")
+        if _lf._add(tested, {"d->parena": 1}, -1) != adv:
+            problems.append(f"the test budgets `{_lf.fmt(_lf._add(tested, {'d->parena': 1}, -1))}` but d->parena advances by `{_lf.fmt(adv)}`")
+        if avail != {"d->narena": 1, "d->pstack": -1}:
+            problems.append(f"the test compares against `{_lf.fmt(avail)}`, not narena - pstack")
+    if problems:
+        res.bad(rule, "mj_arenaAllocByte:size-test-before-advance", file, fn.get("line"), "; ".join(problems))
+    else:
+        res.ok(rule, "mj_arenaAllocByte:size-test-before-advance", {"tested": _lf.fmt(tested), "advance": _lf.fmt(adv)})
 
 
 def run(res, tier):
